@@ -323,3 +323,438 @@ Section SumLemmas.
       rewrite (Nat.eqb_sym a k), Hk. ring.
   Qed.
 End SumLemmas.
+
+(* ------------------------------------------ Part 3: tensor structure, identity *)
+Section Tensor.
+  Context {K : Type} {o : ops K} {ii hh : K} {TR : TomoRing o ii hh}.
+  Let R := sr_ring (o:=o).
+  Add Ring Kt : R.
+  Local Notation "a + b" := (kadd o a b).
+  Local Notation "a * b" := (kmul o a b).
+  Local Notation "a - b" := (ksub o a b).
+  Local Notation "- a" := (kopp o a).
+  Local Notation one := (k1 o).
+  Local Notation zero := (k0 o).
+  Local Notation conj := (kconj o).
+  Local Notation sumn := (sumn o).
+  Local Notation suml := (suml o).
+  Local Notation pauli_mat := (pauli_mat o ii).
+  Local Notation meas_mat := (meas_mat o ii hh).
+
+  Definition compat (gt : pauli * pauli) : Prop := snd gt = repl1 (fst gt) \/ fst gt = PI.
+
+  Lemma hh2 : (one + one) * (hh * hh) = one.
+  Proof. exact tr_hh. Qed.
+  Lemma hh4 : (one + one) * (one + one) * (hh * hh * (hh * hh)) = one.
+  Proof. transitivity (((one + one) * (hh * hh)) * ((one + one) * (hh * hh))); [ring|]. rewrite hh2. ring. Qed.
+
+  Ltac conj_push :=
+    repeat first [rewrite sr_conj_add | rewrite sr_conj_mul | rewrite sr_conj_opp | rewrite sr_conj_1
+                 | rewrite sr_conj_0 | rewrite tr_hh_conj | rewrite tr_ii_conj].
+
+  Lemma obs1 g t k l : compat (g, t) -> k < 2 -> l < 2 ->
+    sumn 2 (fun y => sg o (negb (pauli_eqb g PI) && Nat.odd y) * (meas_mat t y k * conj (meas_mat t y l)))
+    = pauli_mat g l k.
+  Proof.
+    intros Hc Hk Hl.
+    assert (Hii := tr_ii (o:=o)).
+    destruct k as [|[|k]]; [| |lia]; (destruct l as [|[|l]]; [| |lia]);
+    destruct Hc as [Hc|Hc]; simpl in Hc; subst; try (destruct g); try (destruct t);
+    cbn; conj_push.
+    all: first [ ring | ring [Hii]
+      | match goal with |- _ = ?r => transitivity (((one+one)*(hh*hh)) * r); [ring | rewrite hh2; ring] end
+      | match goal with |- _ = ?r => transitivity (((one+one)*(hh*hh)) * r); [ring [Hii] | rewrite hh2; ring] end ].
+  Qed.
+
+  Ltac solve_poly Hii :=
+    first [ ring | ring [Hii]
+      | match goal with |- _ = ?r => transitivity (((one+one)*(hh*hh)) * r); [ring | rewrite hh2; ring] end
+      | match goal with |- _ = ?r => transitivity (((one+one)*(hh*hh)) * r); [ring [Hii] | rewrite hh2; ring] end ].
+
+  Lemma comp1 a b k l : a < 2 -> b < 2 -> k < 2 -> l < 2 ->
+    suml meas_keys (fun g => (hh * hh) * (pauli_mat g a b * pauli_mat g l k)) = mid o a k * mid o b l.
+  Proof.
+    intros Ha Hb Hk Hl. assert (Hii := tr_ii (o:=o)).
+    destruct a as [|[|a]]; [| |lia]; (destruct b as [|[|b]]; [| |lia]);
+    (destruct k as [|[|k]]; [| |lia]); (destruct l as [|[|l]]; [| |lia]); cbn; solve_poly Hii.
+  Qed.
+
+  Fixpoint hpow (n : nat) : K := match n with O => one | S m => (hh * hh) * hpow m end.
+
+  Lemma pow2_hpow n : pow2 o n * hpow n = one.
+  Proof.
+    induction n as [|n IH]; simpl; [ring|]. unfold two.
+    transitivity (((one + one) * (hh * hh)) * (pow2 o n * hpow n)); [ring|]. rewrite hh2, IH. ring.
+  Qed.
+  Lemma kinv_pow2 n : kinv o (pow2 o n) = hpow n.
+  Proof. apply ui_inv. apply pow2_hpow. Qed.
+  Lemma kinv_one : kinv o one = one.
+  Proof. apply ui_inv. ring. Qed.
+
+  Lemma kfold_snoc (f : pauli -> mat) c g i j : i < 2 ^ S (length c) -> j < 2 ^ S (length c) ->
+    kfold o f (c ++ [g]) i j = kfold o f c (i / 2) (j / 2) * f g (i mod 2) (j mod 2).
+  Proof.
+    destruct c as [|g0 r].
+    - intros Hi Hj. change (2 ^ S (length (@nil pauli))) with 2 in *.
+      change (kfold o f ([] ++ [g]) i j) with (f g i j).
+      change (kfold o f [] (i / 2) (j / 2)) with (mid o (i / 2) (j / 2)).
+      rewrite !Nat.div_small, !Nat.mod_small by lia. unfold mid. simpl. ring.
+    - intros _ _. simpl. rewrite fold_left_app. reflexivity.
+  Qed.
+
+  Lemma sg_xorb a b : sg o (xorb a b) = sg o a * sg o b.
+  Proof. destruct a, b; simpl; ring. Qed.
+
+  Definition obsum (n : nat) (cs : list (pauli * pauli)) (k l : nat) : K :=
+    sumn (2 ^ n) (fun z => sg o (par (map fst cs) (bits n z)) *
+       (kfold o meas_mat (map snd cs) z k * conj (kfold o meas_mat (map snd cs) z l))).
+
+  Lemma obsum_pauli cs : Forall compat cs -> forall k l, k < 2 ^ length cs -> l < 2 ^ length cs ->
+    obsum (length cs) cs k l = kfold o pauli_mat (map fst cs) l k.
+  Proof.
+    induction cs as [|[g t] cs IH] using rev_ind; intros Hc k l Hk Hl.
+    - simpl in *. assert (k = 0) by lia. assert (l = 0) by lia. subst. unfold obsum. cbn.
+      rewrite sr_conj_1. ring.
+    - apply Forall_app in Hc as [Hc Hgt]. inversion Hgt as [|? ? Hgt' _]; subst.
+      rewrite app_length in *. simpl length in *. replace (length cs + 1)%nat with (S (length cs)) in * by lia.
+      set (n := length cs) in *.
+      rewrite map_app. simpl map. rewrite kfold_snoc by (rewrite map_length; assumption).
+      unfold obsum. rewrite Nat.pow_succ_r', (Nat.mul_comm 2), sumn_prod.
+      rewrite (sumn_ext _ _ (fun z' => sumn 2 (fun y =>
+        (sg o (par (map fst cs) (bits n z')) *
+           (kfold o meas_mat (map snd cs) z' (k / 2) * conj (kfold o meas_mat (map snd cs) z' (l / 2)))) *
+        (sg o (negb (pauli_eqb g PI) && Nat.odd y) * (meas_mat t y (k mod 2) * conj (meas_mat t y (l mod 2))))))).
+      + rewrite sumn_pair_mul. fold (obsum n cs (k / 2) (l / 2)).
+        rewrite IH by (try assumption; apply half_index_lt; assumption).
+        rewrite obs1 by (try assumption; apply Nat.mod_upper_bound; lia). reflexivity.
+      + intros z' Hz'. apply sumn_ext. intros y Hy.
+        destruct (split_index z' y Hy) as [E1 [E2 E3]].
+        rewrite !map_app. simpl map. cbn [bits]. rewrite E1, E3.
+        rewrite par_snoc by (rewrite map_length, bits_length; reflexivity).
+        rewrite sg_xorb.
+        rewrite !kfold_snoc by (rewrite map_length; fold n; first [assumption | rewrite Nat.pow_succ_r'; lia]).
+        rewrite E1, E2. rewrite sr_conj_mul. ring.
+  Qed.
+
+  Definition complete_sum (n a b k l : nat) : K :=
+    suml (strings meas_keys n) (fun c => hpow n * (kfold o pauli_mat c a b * kfold o pauli_mat c l k)).
+
+  Lemma mid_split a k : mid o (a / 2) (k / 2) * mid o (a mod 2) (k mod 2) = mid o a k.
+  Proof.
+    unfold mid. rewrite <- (eqb_split a k).
+    destruct (a / 2 =? k / 2), (a mod 2 =? k mod 2); simpl; ring.
+  Qed.
+
+  Lemma pauli_complete n : 1 <= n -> forall a b k l,
+    a < 2 ^ n -> b < 2 ^ n -> k < 2 ^ n -> l < 2 ^ n ->
+    complete_sum n a b k l = mid o a k * mid o b l.
+  Proof.
+    induction n as [|n IH]; [lia|]. intros _ a b k l Ha Hb Hk Hl.
+    destruct (Nat.eq_dec n 0) as [->|Hn0].
+    - change (2 ^ 1) with 2 in *. unfold complete_sum. rewrite strings_1. unfold singles.
+      rewrite suml_map, <- comp1 by assumption. apply suml_ext. intros g _. simpl. ring.
+    - unfold complete_sum. rewrite strings_S by lia. rewrite suml_flat_map.
+      rewrite (suml_ext _ _ (fun c : mstr => suml meas_keys (fun g =>
+        (hpow n * (kfold o pauli_mat c (a / 2) (b / 2) * kfold o pauli_mat c (l / 2) (k / 2))) *
+        ((hh * hh) * (pauli_mat g (a mod 2) (b mod 2) * pauli_mat g (l mod 2) (k mod 2)))))).
+      + rewrite suml_pair_mul.
+        assert (IH' := IH ltac:(lia) (a / 2) (b / 2) (k / 2) (l / 2)). unfold complete_sum in IH'.
+        rewrite IH' by (apply half_index_lt; assumption).
+        rewrite comp1 by (apply Nat.mod_upper_bound; lia).
+        rewrite <- (mid_split a k), <- (mid_split b l). ring.
+      + intros c Hc. apply strings_length_elem in Hc; [|lia].
+        rewrite suml_map. apply suml_ext. intros g _.
+        rewrite !kfold_snoc by (rewrite Hc; assumption). simpl hpow. ring.
+  Qed.
+
+  Lemma born_sum N (sgn : nat -> K) (M rho : @mat K) :
+    sumn N (fun z => sgn z * born o N M rho z) =
+    sumn N (fun k => sumn N (fun l => rho k l * sumn N (fun z => sgn z * (M z k * conj (M z l))))).
+  Proof.
+    unfold born.
+    rewrite (sumn_ext N _ (fun z => sumn N (fun k => sumn N (fun l => rho k l * (sgn z * (M z k * conj (M z l))))))).
+    - rewrite sumn_swap. apply sumn_ext. intros k _. rewrite sumn_swap. apply sumn_ext. intros l _.
+      rewrite sumn_mul_l. reflexivity.
+    - intros z _. rewrite <- sumn_mul_l. apply sumn_ext. intros k _. rewrite <- sumn_mul_l.
+      apply sumn_ext. intros l _. ring.
+  Qed.
+
+  Lemma allI_par c bs : Forall (fun g => g = PI) c -> par c bs = false.
+  Proof.
+    intros H. revert bs. induction H as [|g c -> _ IH]; intros [|b bs]; simpl; try reflexivity.
+    rewrite IH. reflexivity.
+  Qed.
+
+  Lemma pauliI_mid i j : i < 2 -> j < 2 -> pauli_mat PI i j = mid o i j.
+  Proof. intros Hi Hj. destruct i as [|[|i]]; [| |lia]; (destruct j as [|[|j]]; [| |lia]); reflexivity. Qed.
+
+  Lemma allI_kfold c : Forall (fun g => g = PI) c -> forall i j, i < 2 ^ length c -> j < 2 ^ length c ->
+    kfold o pauli_mat c i j = mid o i j.
+  Proof.
+    induction c as [|g c IH] using rev_ind; intros H i j Hi Hj.
+    - reflexivity.
+    - apply Forall_app in H as [H Hg]. inversion Hg as [|? ? -> _]; subst.
+      rewrite app_length in *. simpl length in *. replace (length c + 1)%nat with (S (length c)) in * by lia.
+      rewrite kfold_snoc by assumption.
+      rewrite IH by (try assumption; apply half_index_lt; assumption).
+      rewrite pauliI_mid by (apply Nat.mod_upper_bound; lia). apply mid_split.
+  Qed.
+
+  (* the basis-change matrix of every setting has orthonormal columns *)
+  Lemma meas_unitary s k l : k < 2 ^ length s -> l < 2 ^ length s ->
+    sumn (2 ^ length s) (fun z => kfold o meas_mat s z k * conj (kfold o meas_mat s z l)) = mid o l k.
+  Proof.
+    intros Hk Hl. set (cs := map (fun t => (PI, t)) s).
+    assert (L : length cs = length s) by (unfold cs; apply map_length).
+    assert (F : map fst cs = map (fun _ => PI) s) by (unfold cs; rewrite map_map; reflexivity).
+    assert (S2 : map snd cs = s) by (unfold cs; rewrite map_map; simpl; apply map_id).
+    assert (AI : Forall (fun g => g = PI) (map fst cs)).
+    { rewrite F. apply Forall_forall. intros g Hg. apply in_map_iff in Hg as [? [<- _]]. reflexivity. }
+    assert (C : Forall compat cs).
+    { unfold cs. apply Forall_forall. intros gt Hg. apply in_map_iff in Hg as [? [<- _]]. right. reflexivity. }
+    generalize (obsum_pauli cs C k l). rewrite L. intros E. specialize (E Hk Hl).
+    rewrite allI_kfold in E by (try exact AI; rewrite map_length, L; assumption).
+    rewrite <- E. unfold obsum. rewrite S2. apply sumn_ext. intros z _.
+    rewrite allI_par by exact AI. simpl. ring.
+  Qed.
+
+  Local Notation ideal_data := (ideal_data o ii hh).
+
+  Definition pauli_expect (n : nat) (rho : @mat K) (c : mstr) : K :=
+    sumn (2 ^ n) (fun k => sumn (2 ^ n) (fun l => rho k l * kfold o pauli_mat c l k)).   (* tr(rho P_c) *)
+
+  Lemma keqb_one_zero : keqb o one zero = false.
+  Proof.
+    destruct (keqb o one zero) eqn:E; [|reflexivity]. apply ui_eqb in E. exfalso. exact (ui_neq E).
+  Qed.
+
+  Lemma born_total n s rho : length s = n -> sumn (2 ^ n) (fun z => born o (2 ^ n) (kfold o meas_mat s) rho z) = trace o (2 ^ n) rho.
+  Proof.
+    intros Hs.
+    rewrite (sumn_ext _ _ (fun z => one * born o (2 ^ n) (kfold o meas_mat s) rho z)) by (intros; ring).
+    rewrite born_sum. unfold trace. apply sumn_ext. intros k Hk.
+    rewrite (sumn_single (2 ^ n) k); try assumption.
+    - rewrite (sumn_ext _ _ (fun z => kfold o meas_mat s z k * conj (kfold o meas_mat s z k))) by (intros; ring).
+      rewrite <- Hs at 1. rewrite meas_unitary by (rewrite Hs; assumption). unfold mid. rewrite Nat.eqb_refl. ring.
+    - intros l Hl Hne.
+      rewrite (sumn_ext _ _ (fun z => kfold o meas_mat s z k * conj (kfold o meas_mat s z l))) by (intros; ring).
+      rewrite <- Hs at 1. rewrite meas_unitary by (rewrite Hs; assumption). unfold mid.
+      apply Nat.eqb_neq in Hne. rewrite Hne. ring.
+  Qed.
+
+  Lemma expectation_ideal n c rho : length c = n -> trace o (2 ^ n) rho = one ->
+    expectation o c (ideal_data n (replIZ c) rho) = Ok (pauli_expect n rho c).
+  Proof.
+    intros Hc Ht. unfold expectation, Tomo.ideal_data.
+    rewrite mapM_map.
+    rewrite (mapM_ok _ (fun z => par c (bits n z))) by (intros; simpl; apply mult_aux_dual_rail; assumption).
+    cbn [bind]. rewrite combine_map, !suml_map. cbn [fst snd]. rewrite !suml_seq.
+    assert (Hs : length (replIZ c) = n) by (unfold replIZ; rewrite map_length; assumption).
+    rewrite (born_total n (replIZ c) rho Hs), Ht, keqb_one_zero, kinv_one.
+    f_equal. rewrite born_sum. unfold pauli_expect.
+    transitivity (sumn (2 ^ n) (fun k => sumn (2 ^ n) (fun l => rho k l * kfold o pauli_mat c l k)) * one); [|ring].
+    f_equal. apply sumn_ext. intros k Hk. apply sumn_ext. intros l Hl. f_equal.
+    set (cs := map (fun g => (g, repl1 g)) c).
+    assert (L : length cs = n) by (unfold cs; rewrite map_length; assumption).
+    assert (F : map fst cs = c) by (unfold cs; rewrite map_map; simpl; apply map_id).
+    assert (S2 : map snd cs = replIZ c) by (unfold cs; rewrite map_map; reflexivity).
+    assert (C : Forall compat cs).
+    { unfold cs. apply Forall_forall. intros gt Hg. apply in_map_iff in Hg as [? [<- _]]. left. reflexivity. }
+    generalize (obsum_pauli cs C k l). rewrite L, F. intros E. rewrite <- E by assumption.
+    unfold obsum. rewrite F, S2. reflexivity.
+  Qed.
+
+  (* The reconstruction identity *)
+  Theorem st_tomography_identity n req rho :
+    1 <= n -> Permutation req (req_canonical n false) -> trace o (2 ^ n) rho = one ->
+    exists R, st_tomography o ii hh n req rho = Ok R /\ meq (2 ^ n) R rho.
+  Proof.
+    intros Hn Hp Ht. unfold st_tomography, st_process. rewrite map_length, Nat.eqb_refl.
+    unfold expand_results.
+    rewrite (mapM_ok _ (fun c => (c, ideal_data n (replIZ c) rho))).
+    2:{ intros c Hc. rewrite (dict_get_map (fun s => ideal_data n s rho)); [reflexivity|].
+        apply (Permutation_in _ (Permutation_sym Hp)). apply replIZ_in_req; assumption. }
+    cbn [bind]. unfold density. rewrite mapM_map. cbn [fst snd].
+    rewrite (mapM_ok _ (fun c => (pauli_expect n rho c * kinv o (pow2 o n), kfold o pauli_mat c))).
+    2:{ intros c Hc. unfold tomo_measurements in Hc. apply strings_length_elem in Hc; [|exact Hn].
+        rewrite expectation_ideal by assumption. reflexivity. }
+    cbn [bind]. eexists. split; [reflexivity|]. intros a b Ha Hb.
+    rewrite suml_map. cbn [fst snd]. unfold tomo_measurements. rewrite kinv_pow2.
+    unfold pauli_expect.
+    rewrite (suml_ext _ _ (fun c => sumn (2 ^ n) (fun k => sumn (2 ^ n) (fun l =>
+       rho k l * (hpow n * (kfold o pauli_mat c a b * kfold o pauli_mat c l k)))))).
+    2:{ intros c _. rewrite <- sumn_mul_r, <- sumn_mul_r. apply sumn_ext. intros k _.
+        rewrite <- sumn_mul_r, <- sumn_mul_r. apply sumn_ext. intros l _. ring. }
+    rewrite suml_sumn_swap.
+    rewrite (sumn_ext _ _ (fun k => sumn (2 ^ n) (fun l => rho k l * (mid o a k * mid o b l)))).
+    - apply sumn_delta2; assumption.
+    - intros k Hk. rewrite suml_sumn_swap. apply sumn_ext. intros l Hl.
+      rewrite suml_mul_l. f_equal. apply (pauli_complete n Hn a b k l); assumption.
+  Qed.
+End Tensor.
+
+(* ----------------------------------------------------- corollaries and specs *)
+Section Corollaries.
+  Context {K : Type} {o : ops K} {ii hh : K} {TR : TomoRing o ii hh}.
+  Let R := sr_ring (o:=o).
+  Add Ring Kco : R.
+  Local Notation "a * b" := (kmul o a b).
+
+  Lemma trace_compat d A B : meq d A B -> trace o d A = trace o d B.
+  Proof. intros H. unfold trace. apply sumn_ext. intros k Hk. apply H; assumption. Qed.
+
+  Lemma hermitian_compat d A B : meq d A B -> hermitian o d B -> hermitian o d A.
+  Proof.
+    intros H HB i j Hi Hj. unfold madj. rewrite !H by assumption. apply HB; assumption.
+  Qed.
+
+  Theorem st_tomography_physical n req rho :
+    1 <= n -> Permutation req (req_canonical n false) -> trace o (2 ^ n) rho = k1 o ->
+    exists R, st_tomography o ii hh n req rho = Ok R /\ meq (2 ^ n) R rho /\
+              trace o (2 ^ n) R = k1 o /\ (hermitian o (2 ^ n) rho -> hermitian o (2 ^ n) R).
+  Proof.
+    intros Hn Hp Ht. destruct (st_tomography_identity n req rho Hn Hp Ht) as [R' [E M]].
+    exists R'. repeat split; try assumption.
+    - rewrite (trace_compat _ _ _ M). exact Ht.
+    - intros H. apply (hermitian_compat _ _ _ M H).
+  Qed.
+
+  (* a normalised state vector gives a Hermitian idempotent of unit trace *)
+  Lemma pure_projector d (psi : nat -> K) :
+    sumn o d (fun k => psi k * kconj o (psi k)) = k1 o ->
+    let rho := density_from_state o psi in
+    hermitian o d rho /\ meq d (mmul o d rho rho) rho /\ trace o d rho = k1 o.
+  Proof.
+    intros Hn rho. repeat split.
+    - intros i j _ _. unfold rho, madj, density_from_state. rewrite sr_conj_mul, sr_conj_inv. ring.
+    - intros i j _ _. unfold rho, mmul, density_from_state.
+      rewrite (sumn_ext d _ (fun k => (psi i * kconj o (psi j)) * (psi k * kconj o (psi k)))) by (intros; ring).
+      rewrite sumn_mul_l, Hn. ring.
+    - exact Hn.
+  Qed.
+End Corollaries.
+
+Section Fidelity.
+  Context {K : Type} {o : ops K} {SR : StarRing o}.
+  (* scipy.linalg.sqrtm restricted to d x d matrices, and abs() on complex numbers.
+     CONTRACT (the only facts assumed): the principal square root of an
+     orthogonal projector - a Hermitian idempotent matrix, which is positive
+     semi-definite - is the projector itself; |1| = 1. *)
+  Variable sqrtm : nat -> @mat K -> @mat K.
+  Variable kabs : K -> K.
+  Hypothesis sqrtm_projector :
+    forall d P, hermitian o d P -> meq d (mmul o d P P) P -> meq d (sqrtm d P) P.
+  Hypothesis kabs_one : kabs (k1 o) = k1 o.
+
+  Theorem fidelity_one d (rho rho_c : @mat K) :
+    hermitian o d rho -> meq d (mmul o d rho rho) rho -> trace o d rho = k1 o ->
+    meq d rho_c rho ->                      (* rho_c: the reconstructed matrix *)
+    state_fidelity o sqrtm kabs d d rho_c rho = Ok (k1 o).
+  Proof.
+    intros Hh Hi Ht Hc. unfold state_fidelity. rewrite Nat.eqb_refl. cbn [negb]. f_equal.
+    assert (Hhc : hermitian o d rho_c) by (apply hermitian_compat with rho; assumption).
+    assert (Hic : meq d (mmul o d rho_c rho_c) rho_c).
+    { eapply meq_trans; [apply mmul_compat; exact Hc|]. eapply meq_trans; [exact Hi|]. apply meq_sym. exact Hc. }
+    pose proof (sqrtm_projector d rho_c Hhc Hic) as Hr.
+    set (inner := mmul o d (mmul o d (sqrtm d rho_c) rho) (sqrtm d rho_c)).
+    assert (Hin : meq d inner rho).
+    { unfold inner. eapply meq_trans.
+      - apply mmul_compat; [apply mmul_compat; [eapply meq_trans; [exact Hr|exact Hc]|apply meq_refl]|eapply meq_trans; [exact Hr|exact Hc]].
+      - eapply meq_trans; [apply mmul_compat; [exact Hi|apply meq_refl]|exact Hi]. }
+    assert (Hhi : hermitian o d inner).
+    { intros i j Hi' Hj'. unfold madj. rewrite !Hin by assumption. apply Hh; assumption. }
+    assert (Hii : meq d (mmul o d inner inner) inner).
+    { eapply meq_trans; [apply mmul_compat; exact Hin|]. eapply meq_trans; [exact Hi|]. apply meq_sym. exact Hin. }
+    pose proof (sqrtm_projector d inner Hhi Hii) as Hs.
+    assert (Et : trace o d (sqrtm d inner) = k1 o).
+    { unfold trace. rewrite <- Ht. unfold trace. apply sumn_ext. intros k Hk.
+      rewrite Hs by assumption. apply Hin; assumption. }
+    rewrite Et. exact kabs_one.
+  Qed.
+End Fidelity.
+
+(* ---- the circuits handed to the experiment callback ---- *)
+Section Settings.
+  Context {K : Type} (o : ops K) (ii hh : K).
+
+  (* the components appended to the base circuit for setting s: the basis
+     change of qubit i on modes 2i, 2i+1 *)
+  Definition setting_components (s : mstr) : list (@comp K) :=
+    map (fun iop => (2 * fst iop, snd iop)) (combine (seq 0 (length s)) (map (meas_mat o ii hh) s)).
+
+  Lemma setting_components_nth s i : i < length s ->
+    nth i (setting_components s) (0, mid o) = (2 * i, meas_mat o ii hh (nth i s PZ)).
+  Proof.
+    intros Hi. unfold setting_components.
+    change (0, mid o) with ((fun iop : nat * @mat K => (2 * fst iop, snd iop)) (0, mid o)).
+    rewrite map_nth. rewrite combine_nth by (rewrite seq_length, map_length; reflexivity).
+    rewrite seq_nth by assumption. cbn [fst snd]. f_equal.
+    rewrite (nth_indep _ (mid o) (meas_mat o ii hh PZ)) by (rewrite map_length; assumption).
+    apply map_nth.
+  Qed.
+
+  Theorem settings_spec n req : 1 <= n -> Permutation req (req_canonical n false) ->
+    length req = 3 ^ n /\ NoDup req /\
+    (forall s, In s req <-> length s = n /\ Forall (fun g => In g xyz) s) /\
+    (forall c, In c (tomo_measurements n false) -> In (replIZ c) req) /\
+    st_circuits o ii hh n req = Ok (map setting_components req) /\
+    (forall s, In s req -> length (setting_components s) = n /\
+       forall i, i < n -> nth i (setting_components s) (0, mid o) = (2 * i, meas_mat o ii hh (nth i s PZ))).
+  Proof.
+    intros Hn Hp.
+    assert (Hin : forall s, In s req <-> length s = n /\ Forall (fun g => In g xyz) s).
+    { intros s. rewrite <- (req_canonical_in n s Hn). split; apply Permutation_in; [exact Hp|apply Permutation_sym; exact Hp]. }
+    refine (conj _ (conj _ (conj Hin (conj _ (conj _ _))))).
+    - rewrite (Permutation_length Hp). apply req_canonical_count. exact Hn.
+    - apply (Permutation_NoDup (Permutation_sym Hp)). rewrite req_canonical_eq. apply dedup_nodup.
+    - intros c Hc. apply (Permutation_in _ (Permutation_sym Hp)). apply replIZ_in_req; assumption.
+    - unfold st_circuits. apply mapM_ok. intros s Hs. apply Hin in Hs as [Hl _].
+      unfold create_circuit, setting_components. rewrite map_length, Hl, Nat.eqb_refl. reflexivity.
+    - intros s H. apply Hin in H as [Hl _]. split.
+      + unfold setting_components.
+        rewrite map_length, combine_length, seq_length, map_length, Hl. apply Nat.min_id.
+      + intros i Hi. apply setting_components_nth. rewrite Hl. exact Hi.
+  Qed.
+End Settings.
+
+(* ---- pure states: outer product and fidelity one ---- *)
+Section Pure.
+  Context {K : Type} {o : ops K} {ii hh : K} {TR : TomoRing o ii hh}.
+
+  Theorem pure_state_fidelity_one
+    (sqrtm : nat -> @mat K -> @mat K) (kabs : K -> K) :
+    (forall d P, hermitian o d P -> meq d (mmul o d P P) P -> meq d (sqrtm d P) P) ->
+    kabs (k1 o) = k1 o ->
+    forall (n : nat) (req : list mstr) (psi : nat -> K),
+      1 <= n -> Permutation req (req_canonical n false) ->
+      sumn o (2 ^ n) (fun k => kmul o (psi k) (kconj o (psi k))) = k1 o ->
+      exists R, st_tomography o ii hh n req (density_from_state o psi) = Ok R /\
+                meq (2 ^ n) R (density_from_state o psi) /\
+                state_fidelity o sqrtm kabs (2 ^ n) (2 ^ n) R (density_from_state o psi) = Ok (k1 o).
+  Proof.
+    intros Hs Ha n req psi Hn Hp Hpsi.
+    destruct (pure_projector (ii:=ii) (hh:=hh) (2 ^ n) psi Hpsi) as [Hh [Hi Ht]].
+    destruct (st_tomography_identity n req _ Hn Hp Ht) as [R' [E M]].
+    exists R'. split; [exact E|]. split; [exact M|].
+    apply (fidelity_one sqrtm kabs Hs Ha); assumption.
+  Qed.
+
+  Theorem basis_change_measures_pauli (c : mstr) (k l : nat) :
+    k < 2 ^ length c -> l < 2 ^ length c ->
+    sumn o (2 ^ length c) (fun z =>
+      kmul o (sg o (par c (bits (length c) z)))
+             (kmul o (kfold o (meas_mat o ii hh) (replIZ c) z k)
+                     (kconj o (kfold o (meas_mat o ii hh) (replIZ c) z l))))
+    = kfold o (pauli_mat o ii) c l k.
+  Proof.
+    intros Hk Hl.
+    set (cs := map (fun g => (g, repl1 g)) c).
+    assert (L : length cs = length c) by (unfold cs; apply map_length).
+    assert (F : map fst cs = c) by (unfold cs; rewrite map_map; simpl; apply map_id).
+    assert (S2 : map snd cs = replIZ c) by (unfold cs; rewrite map_map; reflexivity).
+    assert (C : Forall compat cs).
+    { unfold cs. apply Forall_forall. intros gt Hg. apply in_map_iff in Hg as [? [<- _]]. left. reflexivity. }
+    generalize (obsum_pauli cs C k l). rewrite L, F. intros E. rewrite <- E by assumption.
+    unfold obsum. rewrite F, S2. reflexivity.
+  Qed.
+End Pure.
